@@ -258,6 +258,31 @@ func solveAll(results []*FnResult, timeoutS, workers int) {
 		}(j)
 	}
 	wg2.Wait()
+	// third pass: a handful of obligations still open (a heavily loaded machine, or a genuine failure): one at a time,
+	// four times the time limit, so that only a real failure survives
+	var last []job
+	for _, j := range again {
+		if j.o.Status != "proved" {
+			last = append(last, j)
+		}
+	}
+	if len(last) == 0 || len(last) > 5 {
+		return
+	}
+	for _, j := range last {
+		prev := *j.o
+		j.o.Status, j.o.Solver, j.o.Model = "", "", ""
+		solveOblig(j.q, j.o, timeoutS*4)
+		if j.o.Status != "proved" {
+			if prev.Status == "failed" && j.o.Status != "failed" {
+				secs := j.o.Secs
+				*j.o = prev
+				j.o.Secs += secs
+			}
+		} else {
+			j.o.Solver += " (third pass)"
+		}
+	}
 }
 
 // stripQuantified removes every top-level command that contains a quantifier (weakening the hypotheses),
